@@ -63,7 +63,10 @@ NsOK(pre, e, exp, post) ==
   THEN LET p == e.args[1]  c == e.args[2]  D == Desc(pre.kids, c) IN
        /\ \A m \in NodesOf(pre) \ D : post.ns[m] = pre.ns[m]                          \* Frame
        /\ post.ns[c] = NsMerge(pre.ns[p], pre.ns[c])                                   \* child wins
-       \* below c the statement promises nothing (TLC: a descendant may have removed a prefix c keeps)
+       \* below c: attach pushes down the prefixes c did not have (over whatever the descendants bound them to); every OTHER binding
+       \* of a descendant is its own and stays (a declared binding stays visible in its subtree until it is removed)
+       /\ LET pushed == {bd[1] : bd \in pre.ns[p]} \ {bd[1] : bd \in pre.ns[c]} IN
+          \A m \in D \ {c} : \A bd \in pre.ns[m] : bd \in post.ns[m] \/ bd[1] \in pushed
   ELSE post.ns = exp.st.ns
 
 Query(pre, e) ==
